@@ -89,8 +89,11 @@ def action_variants(program, action):
         par = p.rsplit("::", 1)[0]
         if par in program.adts and program.adts[par]["kind"] == "enum":
             out.add((par, p.rsplit("::", 1)[1]))
-        return out
-    if action[0] == "closure":
+            return out
+        if p not in program.bodies:
+            return out
+        # a named function used as the action (`map_res(p, build_x)`) is read like a closure with the same body
+    if action[0] in ("closure", "fn"):
         b = program.bodies.get(action[1])
         if b is None:
             return out
